@@ -1,7 +1,7 @@
 #!/bin/bash
 # usage: tools/trymut.sh <patch.diff> <ID> [tier]   -- apply a patch to /repo, run the check, always revert
 set -u
-P=$1; ID=$2; TIER=${3:-quick}
+P=$(readlink -f "$1"); ID=$2; TIER=${3:-quick}
 cd /repo || exit 3
 if ! git diff --quiet; then echo "refusing: /repo has uncommitted changes"; exit 3; fi
 if ! git apply --check "$P" 2>/dev/null; then
